@@ -195,8 +195,8 @@ func vC46_hubStep() {
 	actor.VReset()
 	h.recv(actor.VCtx(self, msg))
 	var o [2]*vSOutbox
-	o[0] = vS_collect(up, slotPID[0], "b0")
-	o[1] = vS_collect(up, slotPID[1], "b1")
+	o[0] = vS_collect2(up, "h", slotPID[0], "b0")
+	o[1] = vS_collect2(up, "h", slotPID[1], "b1")
 	stopped := actor.VShutdowns > 0
 	sent := o[0].reqs + o[0].cancels
 	for i := 0; i < 2; i++ {
@@ -342,6 +342,7 @@ func vC46_slotStep() {
 	// messages to the hub
 	var toHubDemand int64
 	toHub, toHubCancel := 0, 0
+	strange := false
 	for i := 0; i < len(actor.VOut) && i < 4; i++ {
 		if actor.VOut[i].To == hubPID {
 			toHub++
@@ -353,10 +354,11 @@ func vC46_slotStep() {
 				vAssert(m.slot == who, "cancel names this branch")
 				toHubCancel++
 			default:
-				vAssert(false, "a branch head only sends slotDemand/slotCancel to the hub")
+				strange = true
 			}
 		}
 	}
+	vAssert(!strange, "a branch head only sends slotDemand/slotCancel to the hub")
 	vAssert(len(actor.VOut) == toHub+o.n+o.completes+o.errs && actor.VUnhandled == 0, "a branch head only talks to its hub and its downstream")
 	switch op {
 	case 0:
